@@ -156,10 +156,10 @@ func (k *r6client) Instr(s r6state, in ssa.Instruction) (r6state, bool, []r6stat
 			break
 		}
 		// push/pop on a counter field
-		if (sc.Name() == "push" || sc.Name() == "pop") && sc.Signature.Recv() != nil {
+		if (core.FuncName(sc) == "push" || core.FuncName(sc) == "pop") && sc.Signature.Recv() != nil {
 			if f := k.recvField(cc.Args[0]); f != "" && k.c.counters[f] {
 				d := 1
-				if sc.Name() == "pop" {
+				if core.FuncName(sc) == "pop" {
 					d = -1
 				}
 				return s.add(f, d), true, nil
@@ -477,7 +477,7 @@ func checkGuard(p *core.Prog, r *core.Result, named *types.Named) {
 		for _, b := range f.Blocks {
 			for _, in := range b.Instrs {
 				if c, ok := in.(*ssa.Call); ok {
-					if sc := c.Common().StaticCallee(); sc != nil && sc.Name() == "check" {
+					if sc := c.Common().StaticCallee(); sc != nil && core.FuncName(sc) == "check" {
 						checkBlocks = append(checkBlocks, b)
 					}
 				}
@@ -553,11 +553,18 @@ func lenTerminator(p *core.Prog, r *core.Result, es encoderSpec, named *types.Na
 		pos   string
 	}
 	var term []pred
+	var closeRoots, openRoots []*ssa.Function
 	for _, n := range es.closes {
-		f := methodOf(p, types.NewPointer(named), p.Pkgs[es.pkg].Types, n)
-		if f == nil {
-			continue
+		if f := methodOf(p, types.NewPointer(named), p.Pkgs[es.pkg].Types, n); f != nil {
+			closeRoots = append(closeRoots, f)
 		}
+	}
+	for _, n := range es.opens {
+		if f := methodOf(p, types.NewPointer(named), p.Pkgs[es.pkg].Types, n); f != nil {
+			openRoots = append(openRoots, f)
+		}
+	}
+	for _, f := range sameRecvReach(closeRoots, named, 3) {
 		for _, b := range f.Blocks {
 			iff, ok := b.Instrs[len(b.Instrs)-1].(*ssa.If)
 			if !ok {
@@ -573,7 +580,7 @@ func lenTerminator(p *core.Prog, r *core.Result, es encoderSpec, named *types.Na
 					v, cst = bo.Y, bo.X
 				}
 				call, ok := v.(*ssa.Call)
-				if !ok || call.Common().StaticCallee() == nil || call.Common().StaticCallee().Name() != "pop" {
+				if !ok || call.Common().StaticCallee() == nil || core.FuncName(call.Common().StaticCallee()) != "pop" {
 					continue
 				}
 				cv, ok := cst.(*ssa.Const)
@@ -596,35 +603,55 @@ func lenTerminator(p *core.Prog, r *core.Result, es encoderSpec, named *types.Na
 	}
 	// start side: in the function that pushes, the If on the pushed value
 	var cnt []pred
-	for _, f := range p.ModFuncs() {
-		if f.Signature.Recv() == nil || namedOf(f.Signature.Recv().Type()) != named {
-			continue
-		}
-		// functions reachable from the opens that compare an int parameter with a constant and whose branches differ in using the parameter
-		isStartChain := false
-		for _, n := range es.opens {
-			if f.Name() == n {
-				isStartChain = true
-			}
-		}
-		if !isStartChain {
-			for _, n := range es.opens {
-				of := methodOf(p, types.NewPointer(named), p.Pkgs[es.pkg].Types, n)
-				if of == nil {
-					continue
-				}
-				for _, b := range of.Blocks {
-					for _, in := range b.Instrs {
-						if c, ok := in.(*ssa.Call); ok && c.Common().StaticCallee() == f {
-							isStartChain = true
-						}
+	// the count condition lives on the way from the start event to the function that records the announced length
+	// (push), or one call below it - not in the integer encoders further down
+	reachAll := sameRecvReach(openRoots, named, 3)
+	pushes := func(f *ssa.Function) bool {
+		for _, b := range f.Blocks {
+			for _, in := range b.Instrs {
+				if c, ok := in.(*ssa.Call); ok {
+					if sc := c.Common().StaticCallee(); sc != nil && core.FuncName(sc) == "push" && len(c.Common().Args) > 0 && fieldOfReceiver(f, c.Common().Args[0]) != "" {
+						return true
 					}
 				}
 			}
 		}
-		if !isStartChain {
+		return false
+	}
+	onChain := map[*ssa.Function]bool{}
+	for changed := true; changed; {
+		changed = false
+		for _, f := range reachAll {
+			if onChain[f] {
+				continue
+			}
+			hit := pushes(f)
+			for _, g := range sameRecvReach([]*ssa.Function{f}, named, 1) {
+				if g != f && onChain[g] {
+					hit = true
+				}
+			}
+			if hit {
+				onChain[f] = true
+				changed = true
+			}
+		}
+	}
+	var startCands []*ssa.Function
+	seenCand := map[*ssa.Function]bool{}
+	for _, f := range reachAll {
+		if !onChain[f] {
 			continue
 		}
+		for _, g := range sameRecvReach([]*ssa.Function{f}, named, 1) {
+			if !seenCand[g] {
+				seenCand[g] = true
+				startCands = append(startCands, g)
+			}
+		}
+	}
+	sort.Slice(startCands, func(i, j int) bool { return startCands[i].Pos() < startCands[j].Pos() })
+	for _, f := range startCands {
 		for _, b := range f.Blocks {
 			iff, ok := b.Instrs[len(b.Instrs)-1].(*ssa.If)
 			if !ok {
@@ -683,6 +710,38 @@ func lenTerminator(p *core.Prog, r *core.Result, es encoderSpec, named *types.Na
 			}
 		}
 	}
+}
+
+// sameRecvReach: the roots and the methods of the same receiver type they reach through static calls (bounded depth),
+// in a deterministic order.
+func sameRecvReach(roots []*ssa.Function, named *types.Named, depth int) []*ssa.Function {
+	seen := map[*ssa.Function]bool{}
+	var out []*ssa.Function
+	var visit func(f *ssa.Function, d int)
+	visit = func(f *ssa.Function, d int) {
+		if seen[f] || f.Blocks == nil {
+			return
+		}
+		seen[f] = true
+		out = append(out, f)
+		if d == 0 {
+			return
+		}
+		for _, b := range f.Blocks {
+			for _, in := range b.Instrs {
+				if c, ok := in.(ssa.CallInstruction); ok {
+					if sc := c.Common().StaticCallee(); sc != nil && sc.Signature.Recv() != nil && namedOf(sc.Signature.Recv().Type()) == named {
+						visit(sc, d-1)
+					}
+				}
+			}
+		}
+	}
+	for _, r := range roots {
+		visit(r, depth)
+	}
+	sort.Slice(out, func(i, j int) bool { return out[i].Pos() < out[j].Pos() })
+	return out
 }
 
 func predString(lower bool, k int64) string {
